@@ -12,6 +12,9 @@ import (
 	"github.com/go-i2p/common/base32"
 	"github.com/go-i2p/common/base64"
 	"github.com/go-i2p/common/data"
+	"github.com/go-i2p/common/destination"
+	"github.com/go-i2p/common/encrypted_leaseset"
+	"github.com/go-i2p/common/key_certificate"
 
 	"verifharness/core"
 	"verifharness/gen"
@@ -154,6 +157,69 @@ func indTasks(r *core.Rand) []indTask {
 			return dig(o.Accepted, o.Ser, obsDigest(o.Val))
 		})
 	}
+	// near-collisions of the task above: the same signed content with a damaged signature, and cut
+	// inside the signature (whatever a successful verification leaves behind must not match these)
+	for k := 0; k < 2; k++ {
+		var sc signedCase
+		switch r.Pick(3) {
+		case 0:
+			sc = signedLeaseSet2(r, 7, r.Chance(1, 2), 11)
+		case 1:
+			sc = signedMeta(r, 11, r.Chance(1, 2), 7)
+		default:
+			sc = signedRouterInfo(r, 7)
+		}
+		kind := map[string]string{"rinfo": "router_info.ReadRouterInfo", "leaseset2": "lease_set2.ReadLeaseSet2", "metaleaseset": "meta_leaseset.ReadMetaLeaseSet"}[sc.kind]
+		p := lib.ByNameCached(kind)
+		intact := sc.bytes
+		damaged := append([]byte(nil), intact...)
+		damaged[len(damaged)-1-r.Pick(60)] ^= byte(1 + r.Pick(255))
+		cut := intact[:len(intact)-1-r.Pick(60)]
+		for _, v := range []struct {
+			name string
+			in   []byte
+		}{{"intact", intact}, {"damaged-signature", damaged}, {"cut-in-signature", cut}} {
+			in := v.in
+			add("verify/"+sc.kind+"/"+v.name, func() string {
+				o := p.Fn(append([]byte(nil), in...))
+				return dig(o.Accepted, o.Ser, obsDigest(o.Val))
+			})
+		}
+	}
+	// size lookups whose arguments collide under a packed key such as sig<<8|crypto
+	{
+		a, b := r.Pick(12), r.Pick(8)
+		add("size-lookups", func() string {
+			out := ""
+			for _, pr := range [][2]int{{a, b}, {a - 1, b + 256}, {a, b + 65536}, {a + 256, b}, {b, a}} {
+				x, err := key_certificate.GetKeySizes(pr[0], pr[1])
+				out += fmt.Sprint(x, err != nil, "|")
+			}
+			return dig(out)
+		})
+	}
+	// blinding: same destination and day, two secrets held in the same buffer one after the other
+	{
+		bk, _ := rm.NewSigKey(7, r)
+		m, _ := gen.KACOf(r, 7, 4)
+		copy(m.Block[384-32:], bk.Pub)
+		enc := m.Encode()
+		s1, s2 := r.Bytes(32), r.Bytes(32)
+		day := time.Unix(int64(1600000000+r.Pick(100000000)), 0)
+		add("blinding", func() string {
+			d, _, err := destination.ReadDestination(append([]byte(nil), enc...))
+			if err != nil {
+				return dig("no-destination")
+			}
+			buf := append([]byte(nil), s1...)
+			b1, e1 := encrypted_leaseset.CreateBlindedDestination(d, buf, day)
+			copy(buf, s2)
+			b2, e2 := encrypted_leaseset.CreateBlindedDestination(d, buf, day)
+			x1, _ := b1.Bytes()
+			x2, _ := b2.Bytes()
+			return dig(x1, e1 != nil, x2, e2 != nil)
+		})
+	}
 	// mappings, strings, integers, dates, base32/64
 	{
 		g := lib.MappingToGo(gen.Mapping(r, 10))
@@ -198,7 +264,7 @@ func indTasks(r *core.Rand) []indTask {
 func c18Independent(c *core.Ctx) {
 	gcounts := []int{2, 8, 16}
 	procs := []int{4, 16}
-	var rounds, calls, overlapping int64
+	var rounds, calls, overlapping, historyRuns int64
 	c.Job("independent", c.N(6, 60)*len(gcounts)*len(procs), func(i int, r *core.Rand) {
 		G := gcounts[i%len(gcounts)]
 		P := procs[(i/len(gcounts))%len(procs)]
@@ -221,12 +287,52 @@ func c18Independent(c *core.Ctx) {
 		}); p {
 			return
 		}
-		// determinism of the tasks themselves (a task that differs between two solo runs says
-		// nothing about concurrency and is not judged)
+		// History independence, still on one goroutine: every task is a pure function of its own
+		// inputs, so it returns the same digest when the whole list is run again in the same order,
+		// in reverse order, and in a shuffled order. A result that depends on what ran before is
+		// package-level state written by an operation (a cache keyed by too little, a pooled buffer).
+		// Tasks that fail this are also excluded from the concurrent comparison below.
 		stable := make([][]bool, G)
 		for g := 0; g < G; g++ {
-			for k, t := range solo[g] {
-				stable[g] = append(stable[g], t.run() == base[g][k])
+			stable[g] = make([]bool, len(solo[g]))
+			for k := range stable[g] {
+				stable[g][k] = true
+			}
+		}
+		type ref struct{ g, k int }
+		var all []ref
+		for g := 0; g < G; g++ {
+			for k := range solo[g] {
+				all = append(all, ref{g, k})
+			}
+		}
+		hr := core.NewRand(c.Seed, "c18ind-history", i)
+		for pass := 0; pass < 3; pass++ {
+			order := make([]ref, len(all))
+			copy(order, all)
+			switch pass {
+			case 1:
+				for a, b := 0, len(order)-1; a < b; a, b = a+1, b-1 {
+					order[a], order[b] = order[b], order[a]
+				}
+			case 2:
+				hr.Shuffle(len(order), func(a, b int) { order[a], order[b] = order[b], order[a] })
+			}
+			var bad []string
+			c.Call("c18/independent/history-pass", []byte(fmt.Sprint(i, pass)), func() {
+				for _, x := range order {
+					if got := solo[x.g][x.k].run(); got != base[x.g][x.k] {
+						if stable[x.g][x.k] {
+							bad = append(bad, solo[x.g][x.k].name)
+						}
+						stable[x.g][x.k] = false
+					}
+				}
+			})
+			historyRuns += int64(len(order))
+			if len(bad) > 0 {
+				c.Violate("history/"+bad[0], "result-depends-on-call-history", gen.Shape{"class": "independent-values", "pass": []string{"same order again", "reverse order", "shuffled order"}[pass]}, nil,
+					fmt.Sprintf("on a single goroutine, %d task(s) returned something else than in the first pass when the list was run in %s: %v", len(bad), []string{"the same order again", "reverse order", "a shuffled order"}[pass], head2(bad, 6)))
 			}
 		}
 		type res struct {
@@ -321,4 +427,5 @@ func c18Independent(c *core.Ctx) {
 	c.SetExtra("independent_rounds", rounds)
 	c.SetExtra("independent_rounds_with_overlap", overlapping)
 	c.SetExtra("independent_calls", calls)
+	c.SetExtra("history_pass_task_runs", historyRuns)
 }
